@@ -115,8 +115,11 @@ const (
 	cS
 )
 
+// extCols: the base columns followed by the analytic columns of an inner query (nested check).
+var extCols = append(append([]string(nil), cols...), "a1", "a2")
+
 func colIdx(name string) int {
-	for i, c := range cols {
+	for i, c := range extCols {
 		if c == name {
 			return i
 		}
@@ -217,6 +220,9 @@ func isIn(s string, xs []string) bool {
 	}
 	return false
 }
+
+var allFnNames = []string{"RANK", "DENSE_RANK", "CUME_DIST", "PERCENT_RANK", "ROW_NUMBER", "NTILE", "FIRST_VALUE", "LAST_VALUE", "NTH_VALUE",
+	"LAG", "LEAD", "COUNT", "SUM", "AVG", "MIN", "MAX", "MEDIAN", "USUM", "UHASH", "LISTAGG", "JSON_AGG", "COUNT_STAR"}
 
 func allFns() []string {
 	var fs []string
@@ -337,15 +343,24 @@ func genFrame(t *rapid.T, large bool, symmetricOnly bool) ref.AnaFrame {
 		Hi: bound("hi", []string{"UF", "UF", "F", "F", "F", "C", "C", "P"})}
 }
 
+func genCPU(t *rapid.T, large bool) int {
+	if large {
+		return pick(t, "cpuLarge", []int{4, 4, 4, 2, 3})
+	}
+	return pick(t, "cpu", []int{1, 1, 1, 4})
+}
+
 func genCase(t *rapid.T) anaCase {
 	large := chance(t, "large", 15)
-	c := anaCase{Rows: genRows(t, large), Default: val.Null}
-	c.Fn = pick(t, "fn", allFns())
-	if large {
-		c.CPU = pick(t, "cpuLarge", []int{4, 4, 4, 2, 3})
-	} else {
-		c.CPU = pick(t, "cpu", []int{1, 1, 1, 4})
-	}
+	c := genCall(t, large, genRows(t, large), allFns())
+	c.CPU = genCPU(t, large)
+	return c
+}
+
+// genCall draws one analytic call over the base columns of rows.
+func genCall(t *rapid.T, large bool, rows [][]val.Val, fns []string) anaCase {
+	c := anaCase{Rows: rows, Default: val.Null}
+	c.Fn = pick(t, "fn", fns)
 
 	// PARTITION BY 0-2 items
 	npk := pick(t, "nPartition", []int{0, 1, 1, 1, 2, 2})
@@ -481,6 +496,8 @@ func argValue(row []val.Val, expr string) val.Val {
 			return val.Null
 		}
 		return val.Int(row[cV].AsInt() + 100)
+	case "a1", "a2":
+		return row[colIdx(expr)]
 	}
 	return val.Int(1)
 }
@@ -617,8 +634,28 @@ func fnSQL(c anaCase) string {
 
 // inDomain re-validates a (possibly hand-written replay) case against the model's domain.
 func inDomain(c anaCase) bool {
+	if !rowsInDomain(c.Rows) || c.CPU < 1 {
+		return false
+	}
+	if c.Arg == "a1" || c.Arg == "a2" {
+		return false
+	}
+	for _, p := range c.Partition {
+		if colIdx(p) >= len(cols) {
+			return false
+		}
+	}
+	for _, o := range c.Order {
+		if colIdx(o.Col) >= len(cols) {
+			return false
+		}
+	}
+	return callInDomain(c)
+}
+
+func rowsInDomain(rows [][]val.Val) bool {
 	seen := map[string]bool{}
-	for _, r := range c.Rows {
+	for _, r := range rows {
 		if len(r) != len(cols) || r[cID].K != "I" || seen[r[cID].S] {
 			return false
 		}
@@ -637,6 +674,15 @@ func inDomain(c anaCase) bool {
 				return false
 			}
 		}
+	}
+	return true
+}
+
+// callInDomain: the call's clauses are inside the reference model's domain
+// (columns exist, order-dependent functions have a unique order, ...).
+func callInDomain(c anaCase) bool {
+	if !isIn(c.Fn, allFnNames) {
+		return false
 	}
 	for _, p := range c.Partition {
 		if colIdx(p) < 0 {
@@ -662,9 +708,6 @@ func inDomain(c anaCase) bool {
 		return false
 	}
 	if isIn(c.Fn, lagFns) && (c.K < 0 || (c.IgnoreNulls && c.K < 1)) {
-		return false
-	}
-	if c.CPU < 1 {
 		return false
 	}
 	return true
